@@ -54,6 +54,7 @@ func c03(r *core.Run) {
 	r.Explanation = "Static rules over the reward path (functions reachable from the storage BeginBlock): (R1) no loop indexes a slice loaded from UnifiedFile.Proofs while its body passes the same file to a callee whose field-write summary may assign .Proofs (in-place removal shifts the elements under the iterator: one prover skipped, one visited twice); (R2) all CFG paths of the per-proof routine are enumerated and each performs exactly one of {credit} | {remove} | {remove, burn}, the credit only behind proven=true or young=true, the burn only behind proven=false and young=false, with the predicates fed the block height and the LastProven of the record loaded for the iterated key; (R3) the only module->account payout on the path goes to keys of the size tracker with an amount depending on the tracker entry, the total size and the pulled coins; (R4) the payout amount depends on every source of the gauge pull amount."
 	r.Assumptions = []string{T1, T3, T4}
 	r.NotDecided = []string{"size-weighted share within one base unit", "Σ paid ≤ released (numeric)"}
+	r.Rule("C03/R8", "block-height arithmetic is dimensionally consistent: absolute heights (Ctx.BlockHeight and fields assigned from it) are compared only with absolute heights, intervals/offsets/parameters only with each other (point - point = span, point ± span = point), followed through helper calls with the dimensions of the actual arguments")
 	r.Rule("C03/R1", "no iteration over a prover list that the loop body may rewrite (range over file.Proofs while a callee may assign file.Proofs of the same object)")
 	r.Rule("C03/R2", "path classes of the per-proof routine: each path performs exactly one of {credit} | {remove} | {remove, burn}; credit behind {proven=true ∨ young=true}; burn behind proven=false ∧ young=false; predicate arguments ⊵ Ctx.BlockHeight and Store(FileProof).LastProven")
 	r.Rule("C03/R3", "only counted provers are paid: the payout recipient ⊵ size-tracker keys only; amount ⊵ {tracker entry, total size, pulled coins}")
@@ -61,6 +62,7 @@ func c03(r *core.Run) {
 	r.Rule("C03/R7", "the burn counter is written as (count read from the store in this invocation)+1: no cached or passed-in provider record")
 	r.Rule("C03/R6", "decode targets are fresh: no proto Unmarshal on the reward path decodes into a variable captured from an enclosing function (the generated decoder appends to repeated fields, so a reused target accumulates the prover lists of earlier files)")
 	r.Rule("C03/R5", "the keys handed to the per-proof routine are exactly the processed file's prover list: file.Proofs itself or a per-file copy of len(file.Proofs) elements filled from it")
+	heightDimensions(r, "C03/R8", moduleFuncs(p, "storage"), 8)
 	bb, _ := p.BlockEntries()
 	var entry *ssa.Function
 	for _, fn := range bb {
